@@ -1,6 +1,6 @@
 /* C08 / C10: mtbl_writer_add under DFCC for keys and values of ANY length: ordering gate, refusal frame, counters,
  * call discipline.  Callees are replaced by contracts (capture style); the frame (assigns) is checked by DFCC. */
-#include "/repo/mtbl/writer.c"
+#include "mtbl/writer.c"
 #include "spec/ghost.h"
 
 size_t vg_k;                                  /* universal index */
